@@ -506,6 +506,9 @@ func (b *Buffer) deleteGlyphsInplace(filter func(*GlyphInfo) bool) {
 		j    int
 		info = b.Info
 		pos  = b.Pos
+		// positions follow the glyphs only once they exist: before positioning,
+		// substitutions may have changed the length of Info alone.
+		hasPos = len(b.Pos) == len(b.Info)
 	)
 	for i := range info {
 		if filter(&info[i]) {
@@ -540,12 +543,16 @@ func (b *Buffer) deleteGlyphsInplace(filter func(*GlyphInfo) bool) {
 
 		if j != i {
 			info[j] = info[i]
-			pos[j] = pos[i]
+			if hasPos {
+				pos[j] = pos[i]
+			}
 		}
 		j++
 	}
 	b.Info = b.Info[:j]
-	b.Pos = b.Pos[:j]
+	if hasPos {
+		b.Pos = b.Pos[:j]
+	}
 }
 
 // unsafeToBreak adds the flag `GlyphFlagUnsafeToBreak`
